@@ -37,7 +37,9 @@ SortedPairs == {p \in PosExRows \X PosExRows : IV!RowLeq(p[1], p[2])}
 ExclChoices == {<<>>}
                \cup (IF MaxEx >= 1 THEN {<< <<x>> >> : x \in PosExRows} ELSE {})
                \cup (IF MaxEx >= 2 THEN {<< <<p[1], p[2]>> >> : p \in SortedPairs}            \* one file, two rows
-                                        \cup {<< <<p[1]>>, <<p[2]>> >> : p \in SortedPairs}   \* two files
+                                        \* two files of one row each: EVERY ordered pair, so that both file orders and a
+                                        \* later file's row containing / inside / overlapping / equal to an earlier file's occur
+                                        \cup {<< <<p[1]>>, <<p[2]>> >> : p \in PosExRows \X PosExRows}
                      ELSE {})
 
 VARIABLES op, fasta, excl, gap, skip, ph, pc, st, out
